@@ -229,6 +229,7 @@ impl World {
                                             self.fail(Class::Reload, "usk/round-trip-not-equal", "after keygen");
                                         }
                                         self.users[user].usk = Some((k2, mu));
+                                        self.users[user].pol = Some((pol.ast.clone(), self.epoch));
                                     }
                                     Err(e) => {
                                         self.fail(Class::Reload, "usk/deserialize-failed", e.to_string());
@@ -804,6 +805,7 @@ impl World {
                 read_aad: None,
                 from_recaps: false,
                 born_event: self.stats.events as usize - 1,
+                pol: Some((pol.ast.clone(), self.epoch)),
             });
         }
     }
@@ -877,6 +879,18 @@ impl World {
         let aad_mismatch = s.kind == SlotKind::Header && s.meta.is_some() && norm_aad(&aad_used) != norm_aad(&s.aad);
         let expect_open = mu.opens(&s.m);
         let explain = mu.explain(&s.m);
+        // Model self-check: while nothing was edited or rotated between the key, the MPK and the
+        // encapsulation, the rights-level prediction must equal the name-level cover relation of
+        // C01/C02 (two independent implementations of the statement).
+        if let (Some((up, ue)), Some((ep, ee))) = (&self.users[user].pol, &s.pol) {
+            if *ue == self.epoch && *ee == self.epoch && self.auth.mmpk.structure == self.auth.m.structure {
+                let name_level = self.auth.m.structure.policy_covers(up, ep);
+                *self.stats.checks.entry("model-self-check").or_default() += 1;
+                if name_level != expect_open {
+                    *self.stats.probes.entry("MODEL-SELF-CHECK-MISMATCH").or_default() += 1;
+                }
+            }
+        }
         let hybrid = s.m.hybrid;
         let from_recaps = s.from_recaps;
         let kind = s.kind.clone();
@@ -1546,6 +1560,7 @@ impl World {
                     read_aad: None,
                     from_recaps: true,
                     born_event: self.stats.events as usize - 1,
+                    pol: None,
                 });
                 // Decaps matrix of the output, immediately.
                 let new_slot = self.slots.len() - 1;
